@@ -379,6 +379,9 @@ func Gen(w *bufio.Writer, seed uint64, tier string, prop string) {
 		if variant >= 4 {
 			fmt.Fprintf(w, "PE locate %s\n", hx.Hex(f))
 		}
+		if prop == "C05" && (variant < 6 || i%2 == 0) {
+			fmt.Fprintf(w, "PE pagespec %s\n", hx.Hex(f))
+		}
 	}
 }
 
@@ -441,6 +444,14 @@ func Handle(f []string) (res string) {
 			out += " pagehashes=" + hex.EncodeToString(d.PageHashes)
 		}
 		return out
+	case "pagespec":
+		// the real page-hash table, to be compared with the specification's (Relic.Spec.PageHashes)
+		img := hx.MustUnHex(f[1])
+		d, err := authenticode.DigestPE(bytes.NewReader(img), crypto.SHA256, true)
+		if err != nil {
+			return "err " + classify(err)
+		}
+		return "ok spec pagehashes=" + hex.EncodeToString(d.PageHashes)
 	case "sign":
 		img := hx.MustUnHex(f[1])
 		sig := hx.MustUnHex(f[2])
